@@ -14,6 +14,9 @@ import (
 	"strings"
 	"time"
 
+	"github.com/form3tech-oss/f1/v2/internal/verifshim/vctx"
+	"github.com/form3tech-oss/f1/v2/internal/verifshim/vtime"
+
 	"github.com/prometheus/client_golang/prometheus"
 
 	"github.com/form3tech-oss/f1/v2/internal/metrics"
@@ -186,8 +189,104 @@ func gatherCounts(reg *prometheus.Registry) counts {
 	return c
 }
 
+// wholeRun: the real Run.Do with progress ticks landing while iterations
+// complete and at the very end of the run; scripted outcomes per iteration id.
+type runWorld struct {
+	pass, fail uint64
+	res        *run.Result
+	reg        *prometheus.Registry
+}
+
+var rw *runWorld
+
+func wholeRun(mode, rate string, maxDur time.Duration, conc int, bodySleep time.Duration, limit uint64) vrt.Scenario {
+	name := fmt.Sprintf("run/%s/rate=%s/maxdur=%s/c=%d/body=%s/limit=%d", mode, rate, maxDur, conc, bodySleep, limit)
+	body := func() {
+		x := &runWorld{}
+		rw = x
+		rs := &hlib.RunSpec{Mode: mode, CompletionTimeout: time.Second,
+			Opts: options.RunOptions{MaxDuration: maxDur, Concurrency: conc, MaxIterations: limit, IgnoreDropped: true}}
+		if mode == "constant" {
+			rs.Flags = map[string]string{"rate": rate, "distribution": "none"}
+		}
+		rs.ScenarioFn = func(t *f1testing.T) f1testing.RunFn {
+			return func(t *f1testing.T) {
+				id, _ := strconv.Atoi(t.Iteration)
+				if bodySleep > 0 {
+					vtime.Sleep(bodySleep)
+				}
+				if id%2 == 0 {
+					x.fail++
+					t.Fail()
+				} else {
+					x.pass++
+				}
+			}
+		}
+		b, err := rs.Build()
+		if err != nil {
+			panic(err)
+		}
+		x.reg = b.Reg
+		res, err := b.Run.Do(vctx.Background())
+		if err != nil {
+			panic(err)
+		}
+		x.res = res
+	}
+	post := func(o *vrt.Outcome) {
+		classify(o, "C01")
+		if o.Status != vrt.StOK || rw.res == nil {
+			return
+		}
+		for _, ev := range o.Log {
+			if strings.HasPrefix(ev, "display Active tests not completed") {
+				// the statement is about runs that return with all iterations complete
+				o.Sig = "completion-timeout"
+				return
+			}
+		}
+		snap := rw.res.Snapshot()
+		got := counts{snap.SuccessfulIterationDurations.Count, snap.FailedIterationDurations.Count, 0}
+		want := counts{rw.pass, rw.fail, 0}
+		if got != want {
+			o.Fail("C01/final-counts", "run:"+diffKey(got, want), fmt.Sprintf("whole run: final result {success,fail}={%d %d}, the bodies passed %d and failed %d times", got.s, got.f, want.s, want.f))
+		}
+		ms, mf, md := hlib.IterationCounts(rw.reg)
+		if ms != want.s || mf != want.f {
+			o.Fail("C01/metric-counts", "run:"+diffKey(counts{ms, mf, 0}, want), fmt.Sprintf("whole run: exported metric {success,fail}={%d %d}, the bodies passed %d and failed %d times", ms, mf, want.s, want.f))
+		}
+		if md != snap.DroppedIterationCount {
+			o.Fail("C01/metric-counts", "run:dropped", fmt.Sprintf("whole run: exported metric has %d dropped, the result reports %d", md, snap.DroppedIterationCount))
+		}
+		o.Sig = fmt.Sprintf("pass=%d fail=%d dropped=%d", want.s, want.f, md)
+	}
+	return vrt.Scenario{Name: name, Body: body, Post: post, Memo: true, Horizon: maxDur + 30*time.Second, MaxSteps: 60000, Delay: true}
+}
+
 func scenariosFor(tier string) []vrt.Scenario {
 	var out []vrt.Scenario
+	addRun := func(d int, sc vrt.Scenario) {
+		sc.Bound = d
+		sc.Name += "/policy=delay"
+		out = append(out, sc)
+	}
+	defer func() {}()
+	if tier == "quick" {
+		// the run ends exactly when a progress tick is due (deadline 1010ms - 10ms guard = 1s)
+		addRun(2, wholeRun("constant", "1/500ms", 1010*time.Millisecond, 1, 0, 0))
+		addRun(2, wholeRun("users", "", 1010*time.Millisecond, 1, 400*time.Millisecond, 0))
+		addRun(1, wholeRun("constant", "2/500ms", 1010*time.Millisecond, 2, 30*time.Millisecond, 3))
+		// lean: one iteration, the progress tick and the end of the run at the same instant; three deviations
+		addRun(2, wholeRun("constant", "1/1s", 1010*time.Millisecond, 1, 0, 0))
+	} else {
+		addRun(3, wholeRun("constant", "1/1s", 1010*time.Millisecond, 1, 0, 0))
+		addRun(3, wholeRun("constant", "1/500ms", 1010*time.Millisecond, 1, 0, 0))
+		addRun(3, wholeRun("users", "", 1010*time.Millisecond, 1, 400*time.Millisecond, 0))
+		addRun(2, wholeRun("constant", "2/500ms", 1010*time.Millisecond, 2, 30*time.Millisecond, 3))
+		addRun(2, wholeRun("constant", "1/500ms", 1500*time.Millisecond, 1, 600*time.Millisecond, 0))
+		addRun(2, wholeRun("users", "", 2010*time.Millisecond, 2, 700*time.Millisecond, 0))
+	}
 	add := func(b int, snaps int, scripts ...string) {
 		sc := component(scripts, snaps)
 		sc.Bound = b
